@@ -875,6 +875,31 @@ def call(fr, callee, args, ctx):
         lo, hi = {'RangeFrom': lambda: (vals[0], len(s_.b)), 'RangeTo': lambda: (0, vals[0]), 'Range': lambda: (vals[0], vals[1])}[mg_.group(1)]()
         if lo > hi or hi > len(s_.b): return Enum('None', [])
         return Enum('Some', [Str(s_.b[lo:hi])])
+    mt_ = re.fullmatch(r"core::str::<impl str>::trim_(end|start)_matches::<\{closure@.*\}>", c)
+    if mt_:
+        b = list(_d(args[0]).b); clo = args[1]
+        while b:
+            ch = b[-1] if mt_.group(1) == 'end' else b[0]
+            if not isinstance(ch, int) and ch.size() < 32: ch = ZeroExt(32 - ch.size(), ch)
+            r = run_fn(closure_name(clo), [Ref(Cell(clo)), ch], ctx)
+            if not (r if isinstance(r, bool) else ctx.branch(r)): break
+            if mt_.group(1) == 'end': b.pop()
+            else: b.pop(0)
+        return Str(b)
+    if c in ('core::char::methods::<impl char>::is_whitespace', 'char::is_whitespace', 'char::methods::<impl char>::is_whitespace'):
+        ch = args[0]
+        if isinstance(ch, int): return ch in (0x20, 0x09, 0x0A, 0x0B, 0x0C, 0x0D, 0x85, 0xA0)
+        return Or(ch == 0x20, And(UGE(ch, 9), ULE(ch, 13)), ch == 0x85, ch == 0xA0)
+    msat_ = re.fullmatch(r'core::num::<impl (usize|u8|u16|u32|u64)>::saturating_(sub|add)', c)
+    if msat_:
+        a, b = args[0], args[1]
+        if isinstance(a, int) and isinstance(b, int):
+            return max(0, a - b) if msat_.group(2) == 'sub' else a + b
+        w = (a if not isinstance(a, int) else b).size()
+        a = BitVecVal(a, w) if isinstance(a, int) else a
+        b = BitVecVal(b, w) if isinstance(b, int) else b
+        if msat_.group(2) == 'sub': return If(ULT(a, b), BitVecVal(0, w), a - b)
+        return If(ULT(a + b, a), BitVecVal((1 << w) - 1, w), a + b)
     mab_ = re.fullmatch(r'core::num::<impl i(8|16|32|64)>::(abs|unsigned_abs)', c)
     if mab_:
         a = args[0]
@@ -956,7 +981,7 @@ def call(fr, callee, args, ctx):
         if x is None: return opt(None)
         it.i += 1
         return opt(Struct([it.i - 1, x]))
-    mi = re.search(r'as (?:DoubleEnded)?Iterator>::(position|rposition|any|all|find|find_map|count|last|nth|skip|take|filter|filter_map|rev|zip|chain|cloned|copied|for_each|max|min|sum)(?:::<.*>)?$', c)
+    mi = re.search(r'as (?:DoubleEnded)?Iterator>::(position|rposition|any|all|find|find_map|count|last|nth|skip|take|filter|filter_map|rev|zip|chain|cloned|copied|for_each|max|min|sum|flatten)(?:::<.*>)?$', c)
     if mi:
         meth = mi.group(1)
         it = _d(args[0])
@@ -999,6 +1024,15 @@ def call(fr, callee, args, ctx):
         if meth == 'rev': return Rev(it)
         if meth in ('cloned', 'copied'): return SliceIter([_d(x) for x in items()])
         if meth == 'filter': return SliceIter([x for x in items() if truth(callc(args[1], Ref(Cell(x))))])
+        if meth == 'flatten':       # over Options (Some(x) -> x, None -> nothing) or nested sequences
+            out = []
+            for x in items():
+                v = _d(x)
+                if isinstance(v, Enum) and v.variant in ('Some', 'None'):
+                    if option_is_some(v, ctx): out.append(v.f[0])
+                else:
+                    st_, off_ = seq_store(v); out.extend(st_[off_:])
+            return SliceIter(out)
         if meth == 'filter_map':
             out = []
             for x in items():
